@@ -282,6 +282,25 @@ impl<'a> Gen<'a> {
         out
     }
 
+    /// the name of an assignable variable declared in an enclosing scope (not the current one)
+    fn shadowable_name(&mut self) -> Option<String> {
+        let current: Vec<String> = self.scopes.last().unwrap().iter().map(|v| v.name.clone()).collect();
+        let outer: Vec<String> = self
+            .visible()
+            .into_iter()
+            .filter(|v| v.assignable && !current.contains(&v.name) && !self.hidden_names.contains(&v.name))
+            .map(|v| v.name)
+            .collect();
+        if outer.is_empty() {
+            None
+        } else {
+            Some(outer[self.rd.below(outer.len())].clone())
+        }
+    }
+    pub fn shadowable_name_pub(&mut self) -> Option<String> {
+        self.shadowable_name()
+    }
+
     fn vars_of(&self, want: Kind) -> Vec<VarInfo> {
         self.visible()
             .into_iter()
@@ -1312,7 +1331,16 @@ impl<'a> Gen<'a> {
         self.label("for");
         let gd = self.guard_begin();
         let d = self.prof.expr_depth;
-        let v = self.fresh("x");
+        // the loop variable sometimes takes the name of a variable of an enclosing scope or of a
+        // global used earlier: inside the loop (closures in its body included) the name means the loop
+        // variable, afterwards the outer variable again, untouched
+        let v = match self.shadowable_name() {
+            Some(n) if self.rd.chance(1, 6) => {
+                self.label("loop_var_shadows");
+                n
+            }
+            _ => self.fresh("x"),
+        };
         let hidden = self.hide(&v);
         let (it, vk) = match self.rd.below(8) {
             0 | 1 => (self.literal_range(), Kind::Num),
